@@ -39,8 +39,9 @@ func VH_c13_sender() {
 	case "request-history":
 		// three operations (request of one of 2x3 (destination, command) pairs, or a response referencing the
 		// k-th earlier request or an unknown counter), then one more request: withheld iff an identical one is unanswered
-		s.msgNum = verifrt.U64("msgNum")
-		verifrt.Assume(s.msgNum < 1<<62)
+		mn := verifrt.U64("msgNum")
+		verifrt.Assume(mn < 1<<62)
+		vhSetMsgNum(s, mn)
 		type pend struct {
 			d, c int
 			ctr  uint64
@@ -106,8 +107,9 @@ func VH_c13_sender() {
 		verifrt.Assert("memory-of-unanswered-requests-is-exact", len(s.reqMsgCache) == open)
 
 	case "eviction":
-		s.msgNum = verifrt.U64("msgNum")
-		verifrt.Assume(s.msgNum < 1<<62)
+		mn := verifrt.U64("msgNum")
+		verifrt.Assume(mn < 1<<62)
+		vhSetMsgNum(s, mn)
 		var ctrs []uint64
 		for i := 0; i < 23; i++ {
 			got, _ := s.Request(model.CmdClassifierTypeRead, src, dsts[0], false, []model.CmdType{vhReadCmd(uint(i))})
@@ -124,8 +126,9 @@ func VH_c13_sender() {
 	case "eviction-after-response", "eviction-with-notifications":
 		// the cached counters are not contiguous: an earlier (not the oldest) request was answered, or
 		// notifications consumed counters in between
-		s.msgNum = verifrt.U64("msgNum")
-		verifrt.Assume(s.msgNum < 1<<62)
+		mn := verifrt.U64("msgNum")
+		verifrt.Assume(mn < 1<<62)
+		vhSetMsgNum(s, mn)
 		var ctrs []model.MsgCounterType
 		for i := 0; i < 21; i++ {
 			if scen[si] == "eviction-with-notifications" && i%5 == 1 {
@@ -177,8 +180,9 @@ func VH_c13_sender() {
 		verifrt.Assert("each-of-the-last-100-notifications-is-retrievable", all)
 
 	case "counters-increase":
-		s.msgNum = verifrt.U64("msgNum")
-		verifrt.Assume(s.msgNum < 1<<62)
+		mn := verifrt.U64("msgNum")
+		verifrt.Assume(mn < 1<<62)
+		vhSetMsgNum(s, mn)
 		hdr := &model.HeaderType{AddressSource: dsts[0], AddressDestination: src, MsgCounter: util.Ptr(model.MsgCounterType(verifrt.U64("requestCounter")))}
 		var last uint64
 		haveLast := false
@@ -227,7 +231,7 @@ func VH_c13_race() {
 	verifrt.Scenario([]string{"two-identical-requests", "request-and-notify", "request-racing-with-the-response-to-its-twin"}[sc])
 	wr := &vhWriter{}
 	s := NewSender(wr).(*Sender)
-	s.msgNum = 100
+	vhSetMsgNum(s, 100)
 	src, dst := vhAddr("L", []uint{1}, 3), vhAddr("A", []uint{1}, 2)
 	counters := func() map[uint64]int {
 		m := map[uint64]int{}
